@@ -69,6 +69,23 @@ type recTask struct {
 	n *wnode
 }
 
+// Ready reports readiness of the wrapped task; at the very end of a run it is
+// forced open so that Serve's readiness waiters (which would otherwise wait
+// forever for a task that failed before becoming ready) can leave the bubble.
+func (t recTask) Ready() <-chan struct{} {
+	rc := make(chan struct{})
+	inner := t.Task.Ready()
+	go func() {
+		select {
+		case <-inner:
+			t.n.w.log.Add(verifsim.Event{K: "task.ready", Node: t.n.id, S: t.Task.String()})
+		case <-t.n.w.endC:
+		}
+		close(rc)
+	}()
+	return rc
+}
+
 func (t recTask) Run(ctx context.Context) error {
 	t.n.w.log.Add(verifsim.Event{K: "task.enter", Node: t.n.id, S: t.Task.String()})
 	err := t.Task.Run(ctx)
@@ -177,6 +194,7 @@ func newWorld(p *Plan, res *verifsim.Result, start time.Time) *world {
 		loop:  append([]RouteW(nil), p.Loop...),
 		ord:   map[string]int{},
 		holds: map[string]chan struct{}{},
+		endC:  make(chan struct{}),
 	}
 	for i := range p.Faults {
 		f := &faultState{Fault: p.Faults[i], left: p.Faults[i].Count}
@@ -595,6 +613,10 @@ func (w *world) apply(a *Action, ds []*daemon) {
 	}
 }
 
+// bubbleBaseline is the number of harness goroutines alive until endC closes
+// (one readiness forwarder per task at most); only used to skip a long sleep.
+const bubbleBaseline = 0
+
 // bubbleGoroutines counts goroutines of the current bubble other than the
 // caller and returns their stacks.
 func bubbleGoroutines() (int, string) {
@@ -608,6 +630,9 @@ func bubbleGoroutines() (int, string) {
 		hdr, _, _ := bytes.Cut(p, []byte("\n"))
 		if !bytes.Contains(hdr, []byte("synctest bubble")) || bytes.HasPrefix(hdr, []byte(me)) {
 			continue
+		}
+		if bytes.Contains(p, []byte("testing/synctest.")) || bytes.Contains(p, []byte("internal/synctest.Run")) {
+			continue // the bubble's own bookkeeping goroutines
 		}
 		cnt++
 		if sb.Len() < 6000 {
@@ -716,11 +741,13 @@ func execPlan(t *testing.T, p *Plan, res *verifsim.Result, oracle func(*runInfo)
 		// Anything still alive now is stuck for good: give long timers (dial
 		// back-off, 50 attempts x 3 s) a last chance, then count survivors.
 		n, _ := bubbleGoroutines()
-		if n > 0 {
+		if n > bubbleBaseline {
 			time.Sleep(200 * time.Second)
 			synctest.Wait()
 		}
 		w.log.Add(verifsim.Event{K: "act.final"})
+		close(w.endC)
+		synctest.Wait()
 		n, stacks := bubbleGoroutines()
 		info.ev = w.log.Events()
 		res.FakeNs = w.log.Now()
